@@ -289,6 +289,35 @@ func c20Mask(c *fw.Ctx) {
 			}
 		}
 	}
+	if len(bits) == 0 && len(adds) == 0 {
+		// no accumulator at all: does success depend on anything recorded while visiting the caveats?
+		if tbl, err := fw.ExtractTable(fn, fw.ErrIndex(fn)); err == nil {
+			stateless := ""
+			nAccept := 0
+			for _, r := range tbl.Rows {
+				if r.Outcome != "accept" {
+					continue
+				}
+				nAccept++
+				for _, term := range r.Cond {
+					carried := false
+					for _, l := range term {
+						// a loop-carried value other than the position in the caveat list
+						if strings.Contains(l.Atom, "phi(") && !strings.Contains(l.Atom, "builtin.len(") {
+							carried = true
+						}
+					}
+					if !carried {
+						stateless = c.P.Pos(fw.InstrPos(r.Ret))
+					}
+				}
+			}
+			if nAccept > 0 && stateless != "" {
+				c.Fail(rule, "the caveat classes are recorded idempotently", stateless, "verifyCaveats returns success without consulting anything recorded while visiting the caveats: a token that lacks a required caveat (even a bare macaroon signed with the server key) validates")
+				return
+			}
+		}
+	}
 	if len(bits) == 0 {
 		if len(adds) > 0 {
 			c.Fail(rule, "the caveat classes are recorded idempotently", adds[0].pos, fmt.Sprintf("verifyCaveats counts satisfied caveats (%d additions into a loop-carried counter, no bit set): the count is reached by repeating one class, so a token lacking a required caveat can validate", len(adds)))
